@@ -1,6 +1,8 @@
 """C08 — untrusted torrent / magnet metadata cannot escape the download directory:
 proof obligations + model/implementation correspondence + property oracle on the implementation."""
 import collections
+import os
+import re
 import hashlib
 import json
 import sys
@@ -35,17 +37,20 @@ def parse_ok(line):
     d["files"] = files
     d["open"] = None
     d["fs"] = None
+    d["open2"] = None
+    d["fs2"] = None
     for p in parts[1:]:
-        if p.startswith("OPEN:"):
-            toks = p.split()
-            d["open"] = toks[0][5:]
-            for t in toks[1:]:
-                if t.startswith("frozen="):
-                    d["frozen"] = [] if t[7:] == "-" else t[7:].split(",")
-        elif p.startswith("FS:"):
-            toks = p.split()
-            d["fs"] = toks[0][3:]
-            d["inodes"] = [] if len(toks) < 2 or toks[1] == "-" else toks[1].split(",")
+        for tag, ko, kf, kfr, kin in (("", "open", "fs", "frozen", "inodes"), ("2", "open2", "fs2", "frozen2", "inodes2")):
+            if p.startswith("OPEN" + tag + ":"):
+                toks = p.split()
+                d[ko] = p[len("OPEN" + tag + ":"):].split(" frozen=")[0]
+                for t in toks[1:]:
+                    if t.startswith("frozen="):
+                        d[kfr] = [] if t[7:] == "-" else t[7:].split(",")
+            elif p.startswith("FS" + tag + ":"):
+                toks = p.split()
+                d[kf] = toks[0][len("FS" + tag + ":"):]
+                d[kin] = [] if len(toks) < 2 or toks[1] == "-" else toks[1].split(",")
     return d
 
 
@@ -86,8 +91,10 @@ def zero_hash_case(case):
 
 def oracle(case, line):
     """Property C08 on ONE implementation output line -> list of (klass, text)."""
-    if line.startswith("ERR:input") or line.startswith("ERR:bencode") or line == "DECODE:reject":
+    if line == "REJECT":
         return []
+    if line.startswith("HANG"):
+        return [("hang", "the implementation did not finish this case within the per-case time limit")]
     if not line.startswith("OK "):
         if line.startswith("ERR:internal") and zero_hash_case(case):
             return [("zero-infohash-internal", "loader throws internal_error (not an input error) for the all-zero info hash")]
@@ -125,6 +132,15 @@ def oracle(case, line):
     else:
         if off != size or size >= 2**63:
             bad.append(("sizes", "file sizes do not sum to the total size"))
+    # declared piece length = chunk size actually used (for torrents; meta downloads use 1)
+    kind0 = case.partition(" ")[0]
+    if kind0 in ("T", "B") and not meta:
+        t0 = case_tree(case)
+        info0 = G.mget(t0, "info") if G.is_map(t0) else None
+        pl0 = G.mget(info0, "piece length") if G.is_map(info0) else None
+        if not isinstance(pl0, int) or pl0 != cs:
+            bad.append(("piece-length-not-declared", "the download uses piece length %d but the torrent declares %r: "
+                        "piece count / hashes do not match the declared geometry" % (cs, pl0)))
     # piece count
     if cs <= 0:
         bad.append(("piece-count", "chunk size is zero"))
@@ -173,36 +189,41 @@ def oracle(case, line):
             bad.append(("unordered-accepted", "an info dictionary flagged unordered was accepted"))
         if kind == "B" and G.ref_info_unordered(unhex(body)):
             bad.append(("unordered-accepted", "bencoded torrent whose info dictionary is unordered somewhere inside was accepted"))
-    # file system
+    # file system: phase 1 under the first root, phase 2 (after close + set_root_dir) under the second
     if " ERR:internal" in line or " ERR:other" in line or "close-err" in line or " REMOVE-ERR" in line:
         bad.append(("lifecycle-crash", "open / hash check / start / stop / close / remove raised a non-storage error: " + line[-120:]))
     elif d["open"] is not None and d["open"] != "skip":
-        if d["open"] != "ok":
-            bad.append(("open-failed", "open failed inside an empty scratch root: " + d["open"][:60]))
-        elif d["fs"] != "ok":
-            bad.append(("fs-escape", "an inode was created outside the chosen root"))
-        else:
-            want = set()
-            root = [name] if multi else []
-            if multi:
-                want.add(("d", name))
-            for f in files:
-                if f["pad"]:
-                    continue
-                comps = root + f["path"]
-                for i in range(1, len(comps)):
-                    want.add(("d", b"/".join(comps[:i])))
-                want.add(("f", b"/".join(comps)))
-            got = set()
-            for x in d["inodes"]:
-                k, _, h = x.partition(":")
-                got.add((k, unhex(h)))
-            if got != want:
-                bad.append(("fs-unexpected", "the inodes created under the root are not exactly the files' paths and their directories"))
-            fr = [unhex(x) if not x.startswith("ABS") else None for x in d.get("frozen", [])]
-            exp = [b"/".join(root + f["path"]) for f in files if not f["pad"]]
-            if fr != exp:
-                bad.append(("frozen-path", "a frozen path is not root + '/' + joined components"))
+        want = set()
+        root = [name] if multi else []
+        if multi:
+            want.add(("d", name))
+        for f in files:
+            if f["pad"]:
+                continue
+            comps = root + f["path"]
+            for i in range(1, len(comps)):
+                want.add(("d", b"/".join(comps[:i])))
+            want.add(("f", b"/".join(comps)))
+        exp = [b"/".join(root + f["path"]) for f in files if not f["pad"]]
+        for ph, ko, kf, kfr, kin in (("", "open", "fs", "frozen", "inodes"), (" (after close + set_root_dir to a second root)", "open2", "fs2", "frozen2", "inodes2")):
+            if d[ko] is None:
+                if ko == "open2" and d["open"] == "ok" and d["fs"] == "ok":
+                    bad.append(("reopen-missing", "no second life cycle was reported"))
+                continue
+            if d[ko] != "ok":
+                bad.append(("open-failed", "open / hash check / start failed inside an empty scratch root%s: %s" % (ph, d[ko][:60])))
+            elif d[kf] != "ok":
+                bad.append(("fs-escape", "an inode was created outside the current root" + ph))
+            else:
+                got = set()
+                for x in d[kin]:
+                    k, _, h = x.partition(":")
+                    got.add((k, unhex(h)))
+                if got != want:
+                    bad.append(("fs-unexpected", "the inodes created under the current root are not exactly the files' paths and their directories" + ph))
+                fr = [unhex(x) if not x.startswith("ABS") else None for x in d.get(kfr, [])]
+                if fr != exp:
+                    bad.append(("frozen-path", "a frozen path is not current root + '/' + joined components" + ph))
     return bad
 
 
@@ -210,6 +231,7 @@ MAGNET_TAGS = {
     1: "prefix_bad", 2: "loop_error", 3: "no_hash", 4: "ok_no_trackers", 5: "ok_trackers",
     10: "round_end", 11: "tag_without_eq", 12: "xt_no_urn", 13: "xt_b32_ok", 14: "xt_b32_fail", 15: "xt_raw20",
     16: "xt_hex40_ok", 17: "xt_hex40_bad", 18: "xt_bad_len", 19: "tr", 20: "other_tag", 21: "url_error", 22: "second_hash",
+    23: "xt_foreign_skipped(policy)",
     30: "url_end", 31: "pct_truncated", 32: "pct_bad_hex", 33: "pct_ok", 34: "url_amp", 35: "url_plain", 36: "url_fault(unreachable)",
     40: "b32_end_ok", 41: "b32_end_fail", 42: "b32_emit", 43: "b32_no_emit", 44: "b32_too_many", 45: "b32_amp_ok",
     46: "b32_amp_fail", 47: "b32_bad_char",
@@ -217,18 +239,20 @@ MAGNET_TAGS = {
 }
 
 
-def magnet_coverage(model, cases):
+def magnet_coverage(model, cases, margs, reject_foreign):
     """branch coverage of the MODEL's magnet parser over the U cases: tag -> number of cases"""
     ucases = [c for c in cases if c.startswith("U ")]
-    out = ltv.run_sharded(model, ucases, args=["--cov"])
+    out = ltv.run_sharded(model, ucases, args=list(margs) + ["--cov"])
     cnt = collections.Counter()
     for line in out:
         for t in line.split():
             if t.isdigit():
                 cnt[int(t)] += 1
     cov = {MAGNET_TAGS.get(t, str(t)): n for t, n in sorted(cnt.items())}
-    missing = [name for t, name in MAGNET_TAGS.items() if t not in cnt and t != 36]
-    return dict(branches=cov, reachable_branches=len(MAGNET_TAGS) - 1, covered=len([t for t in cnt if t != 36]),
+    # 36 is unreachable by theorem; 12 / 23 are the two sides of the probed policy
+    dead = {36, 23 if reject_foreign else 12}
+    missing = [name for t, name in MAGNET_TAGS.items() if t not in cnt and t not in dead]
+    return dict(branches=cov, reachable_branches=len(MAGNET_TAGS) - len(dead), covered=len([t for t in cnt if t not in dead]),
                 never_reached=missing, unreachable_reached=cnt.get(36, 0), uri_cases=len(ucases))
 
 
@@ -241,7 +265,9 @@ def run(rep, tier, seed, replay):
                        "modelled not verified: Object/std::map as a sorted association list (C07 value tree); std::sort as insertion sort (unique sorted permutation of a total order); strcmp as comparison of the prefix before the first NUL",
                        "not modelled: TrackerList::insert_url beyond 'does it throw', DownloadWrapper::initialize beyond the zero-hash internal_error, the kernel (mkdir/open) — the scratch tree is walked instead",
                        "harness rules: tracker_key != 0; the life cycle open -> hash_check (driven to completion on the stepped main thread, harness/common/session) -> start(skip_tracker) -> stop -> close -> download_remove is run only when the download has <= 4096 pieces and <= 64 files; the scratch tree is walked after close",
-                       "python reference oracle in props/c08.py + gen/c08.py (ref_magnet_hash) evaluated on implementation outputs"]))
+                       "python reference oracle in props/c08.py + gen/c08.py (ref_magnet_hash) evaluated on implementation outputs",
+                       "probed policy (harness --params: accepted piece-length interval by bisection assuming one interval around 2^20, foreign-xt policy by one probe URI, HashString::size_data from the compiled header); the model runs with the probed policy and policy_ok is evaluated by the extracted checker",
+                       "compared projection: accepted vs rejected (any input_error, incl. bencode_error and decoder rejects, is REJECT; internal_error / other exceptions / hangs stay distinct); accepted downloads are compared in full"]))
     model = ltv.build_model("C08")
     impl = ltv.build_harness("c08", ["c08.cc", "common/session.cc"], libs=["-lcrypto"])
     if replay:
@@ -249,9 +275,40 @@ def run(rep, tier, seed, replay):
         stats = {"replay": 1}
     else:
         cases, stats = G.gen(seed, tier)
-    mo = ltv.run_sharded(model, cases)
-    io = ltv.run_sharded(impl, cases)
-    mcov = magnet_coverage(model, cases) if not replay else {}
+    # --- probe what the property leaves open from the COMPILED implementation (ROBUSTNESS 3/4)
+    pr, perr, prc = ltv.run_lines(impl, [], args=["--params"], timeout=120)
+    probed = {}
+    for tok in (pr[0].split()[1:] if pr and pr[0].startswith("PARAMS ") else []):
+        k, _, v = tok.partition("=")
+        probed[k] = v
+    try:
+        policy = dict(pl_min=int(probed["pl_min"]), pl_max=int(probed["pl_max"]), reject_foreign_xt=int(probed["reject_foreign_xt"]))
+        hash_size = int(probed["hash_size"])
+    except (KeyError, ValueError):
+        raise ltv.BuildError("C08 harness --params probe failed: %r %s" % (pr, perr[-300:]))
+    margs = ["--policy", str(policy["pl_min"]), str(policy["pl_max"]), str(policy["reject_foreign_xt"])]
+    pok, _, _ = ltv.run_lines(model, [], args=margs + ["--policy-ok"])
+    policy_ok = bool(pok) and pok[0] == "policy_ok=1" and hash_size == 20
+    # the regex translator is only a cross-check that may be absent after a refactor
+    xcheck = {}
+    try:
+        txt = open(os.path.join(ltv.COQ, "C08", "ParamsGen.v")).read()
+        for name, key in (("c08_piece_length_min", "pl_min"), ("c08_piece_length_max", "pl_max")):
+            mm = re.search(name + r" : N := (\d+)%N\. *(\(\* NOT FOUND)?", txt)
+            if mm and not mm.group(2):
+                xcheck[key] = "agrees" if int(mm.group(1)) == policy[key] else "source text says %s, compiled code behaves as %d" % (mm.group(1), policy[key])
+            else:
+                xcheck[key] = "regex did not match (ignored)"
+    except OSError:
+        pass
+    rep.cov.update(probed_policy=policy, probed_hash_size=hash_size, policy_ok=policy_ok, probe_note=probed.get("note"), source_text_crosscheck=xcheck)
+    if not policy_ok:
+        rep.violation("the policy probed from the implementation (%r, hash size %d) violates the side condition policy_ok of the theorems "
+                      "(piece length upper bound must stay below 2^32, SHA-1 size 20)" % (policy, hash_size),
+                      theorem="policy_ok (coq/C08/Model.v)", found_input=False)
+    mo = ltv.run_sharded(model, cases, args=margs)
+    io = ltv.run_sharded(impl, cases, timeout=900)
+    mcov = magnet_coverage(model, cases, margs, policy["reject_foreign_xt"]) if not replay else {}
     if mcov.get("never_reached") or mcov.get("unreachable_reached"):
         ltv.log("C08 COVERAGE-GAP (model magnet parser): never reached %s; unreachable reached %s" % (
             mcov.get("never_reached"), mcov.get("unreachable_reached")))
